@@ -201,6 +201,10 @@ int sim_getsockname(int fd, struct sockaddr *addr, socklen_t *addrlen) {
 
 static bool buffer_ok(const void *p, size_t n, const char *what) {
 	if (n == 0) return true;
+	if (n > (1ul << 30) || (uintptr_t)p + n < (uintptr_t)p) {
+		if (g_hooks) g_hooks->hygiene("bad-io-buffer", std::string(what) + ": buffer length " + std::to_string(n) + " is absurd (a negative length converted to size_t?)");
+		return false;
+	}
 	if (__asan_region_is_poisoned((void *)p, n)) {
 		if (g_hooks) g_hooks->hygiene("bad-io-buffer", std::string(what) + ": buffer of " + std::to_string(n) + " bytes is not entirely inside a live object");
 		return false;
